@@ -16,7 +16,8 @@ import (
 //	                   endpoint skipped, which handler
 //	handler_pep, handler_my_callers, handler_indirect
 //	                   per handler, IN SOURCE ORDER: the early-return guards (excluded source/target, target not a
-//	                   seed / not final, target human), AddCall unless the target endpoint is hidden, the append to
+//	                   seed / not final, target human), AddCall unless the target endpoint is hidden (read through the
+//	                   nil-safe getters apps[t].GetEndpoints()[e].GetAttrs(); the dereferencing form is Unknown), the append to
 //	                   FinalApps (of source or target), the call of WalkPassthrough
 //	walk_passthrough   WalkPassthrough: test on Passthroughs, the "already being expanded" guard, recursion
 //	process_calls      ProcessCalls: statement kind -> handler / skip / recurse / recurse into every choice / panic
@@ -153,7 +154,7 @@ func intsHandler(fd *ast.FuncDecl) []string {
 				continue
 			}
 			addCall := h.recv + ".AddCall(" + h.src + ", " + h.ep + ", " + h.stmt + ")"
-			hidden := "!syslutil.HasPattern(" + h.recv + ".M.GetApps()[" + h.tgt + "].Endpoints[" + h.call + ".Endpoint].GetAttrs(), \"hidden\")"
+			hidden := "!syslutil.HasPattern(" + h.recv + ".M.GetApps()[" + h.tgt + "].GetEndpoints()[" + h.call + ".Endpoint].GetAttrs(), \"hidden\")"
 			if h.tgt != "" && intsX(intsStripParens(s.Cond)) == hidden && len(s.Body.List) == 1 {
 				if es, ok := s.Body.List[0].(*ast.ExprStmt); ok && intsX(es.X) == addCall {
 					out = append(out, "AddUnlessHidden")
